@@ -33,9 +33,12 @@ BigSecSeqs == UNION {{[k \in 1..n |-> [size |-> sz[k], fpos |-> p[k]]] : sz \in 
 BigSecInit == \E bits \in {32, 64} : \E ss \in BigSecSeqs, tr \in {0, 3}, ce \in {0, 16} :
              Start([bits |-> bits, lfanew |-> 64, secs |-> ss, slack |-> 8, gap |-> 0, gappos |-> 1, trail |-> tr, cert |-> ce, zptr |-> "zero", ndirs |-> 16])
 (* headers just under, over and well over one 4 KiB page: a long DOS stub in front of the PE header, or many bytes between the section table and SizeOfHeaders *)
-BigHdrInit == \E bits \in {32, 64} : \E sl \in {3700, 4096, 8191}, lf \in {64, 4200}, tr \in {0, 3}, ce \in {0, 16}, sz \in {0, 13} :
+BigHdrInit == \E bits \in {32, 64} : \E sl \in {3700, 4096, 8191}, lf \in {64, 4200, 65536, 65600}, tr \in {0, 3}, ce \in {0, 16}, sz \in {0, 13} :
              Start([bits |-> bits, lfanew |-> lf, secs |-> <<[size |-> sz, fpos |-> 1]>>, slack |-> sl, gap |-> 0, gappos |-> 1, trail |-> tr, cert |-> ce, zptr |-> "zero", ndirs |-> 16])
-BigInit == BigSecInit \/ BigHdrInit
+(* more than 1 MiB of data behind the last section (a kernel with an initrd appended), with and without a certificate table *)
+BigTrailInit == \E bits \in {32, 64} : \E tr \in {1048576, 1048577, 3145733}, ce \in {0, 16}, ss \in {<<>>, <<[size |-> 13, fpos |-> 1]>>} :
+             Start([bits |-> bits, lfanew |-> 64, secs |-> ss, slack |-> 8, gap |-> 0, gappos |-> 1, trail |-> tr, cert |-> ce, zptr |-> "zero", ndirs |-> 16])
+BigInit == BigSecInit \/ BigHdrInit \/ BigTrailInit
 
 (* code -> spec: layouts projected from real files by the harness's independent PE reader *)
 Obs == ndJsonDeserialize("obs.ndjson")
